@@ -155,7 +155,7 @@ func scanScenarios(tier string) []scanScenario {
 				els = append(els, "m"+itoa(i))
 			}
 			p := scanScenario{Name: fmt.Sprintf("%s/size%d", kind, n), Kind: kind, Initial: els, MaxMut: 1, MaxSteps: 6}
-			p.Counts = []int{1, 2, 3, n, n + 1, 10}
+			p.Counts = []int{1, 2, 3, n, n + 1, 10, 1 << 31, 1 << 32, 1000000000000000000, 9223372036854775807}
 			if n == 0 {
 				p.Counts = []int{1, 10}
 			}
